@@ -23,7 +23,9 @@ import (
 	"context"
 	"errors"
 	"strings"
+	"unicode/utf8"
 
+	"entgo.io/ent/dialect/sql"
 	"google.golang.org/grpc"
 
 	"github.com/grpc-ecosystem/grpc-gateway/v2/runtime"
@@ -44,6 +46,19 @@ func projectSubscriptionPrefix(project string) string {
 
 func projectSnapshotPrefix(project string) string {
 	return project + "/snapshots/"
+}
+
+// exactNamePrefix narrows a NameHasPrefix match to an exact, case-sensitive
+// one: the LIKE it is built on is case-insensitive on SQLite, which would make a
+// listing for one project also return the resources of projects whose names
+// differ only by case.
+func exactNamePrefix(prefix string) func(*sql.Selector) {
+	return func(s *sql.Selector) {
+		s.Where(sql.P(func(b *sql.Builder) {
+			b.WriteString("substr(").Ident(s.C("name")).WriteString(", 1, ").
+				Arg(utf8.RuneCountInString(prefix)).WriteString(") = ").Arg(prefix)
+		}))
+	}
 }
 
 func isValidTopicName(name string) bool {
